@@ -37,7 +37,7 @@ public:
 
     source_location find(const std::size_t offset) const
     {
-        const auto search = std::lower_bound(
+        auto search = std::lower_bound(
             std::begin(ranges),
             std::end(ranges),
             offset,
@@ -46,7 +46,13 @@ public:
                 return lhs.end < rhs;
             });
 
-        assert(search != std::end(ranges) && "Offset is out of range");
+        if(search == std::end(ranges))
+        {
+            // the XML parser can report an offset past the end of the file
+            // (e.g. when it converts the input encoding), attribute it to the
+            // last line
+            search = std::prev(std::end(ranges));
+        }
 
         const auto line =
             static_cast<std::size_t>(search - std::begin(ranges) + 1);
